@@ -299,6 +299,7 @@ def gen_client_case(seed):
         case["family"] = fam
         case["lines"] = lines
         case["cmd"] = "MLSD" if fam == "mlsx" else "LIST"
+        case["serve_mode"] = rnd.choice(["normal", "normal", "slow426", "stall"])
     else:
         # a finite tree whose listings contain '.' and '..' entries
         fam = rnd.choice(["unix", "mlsx"])
@@ -402,14 +403,40 @@ async def fake_server(world, case, log):
                         continue
                     dr, dw = state["data"]
                     state["data"] = None
-                    for ln in lines:
-                        dw.write(ln + b"\r\n")
-                    try:
-                        await dw.drain()
-                    except ConnectionError:
-                        pass
-                    dw.close()
-                    await send("226 done\r\n")
+                    mode = case.get("serve_mode", "normal") if case["kind"] == "listing" else "normal"
+                    if mode == "normal":
+                        for ln in lines:
+                            dw.write(ln + b"\r\n")
+                        try:
+                            await dw.drain()
+                        except ConnectionError:
+                            pass
+                        dw.close()
+                        await send("226 done\r\n")
+                    else:
+                        # a server that sends the listing line by line; if the client closes the
+                        # data connection before the end it says so (426); in "stall" mode it goes
+                        # silent after the last line instead of finishing
+                        aborted = False
+                        for ln in lines:
+                            if dw.transport.is_closing() or dr.at_eof():
+                                aborted = True
+                                break
+                            dw.write(ln + b"\r\n")
+                            try:
+                                await dw.drain()
+                            except ConnectionError:
+                                aborted = True
+                                break
+                            await asyncio.sleep(0.05)
+                        if mode == "stall" and not aborted:
+                            for _ in range(100000):
+                                if dw.transport.is_closing() or dr.at_eof():
+                                    aborted = True
+                                    break
+                                await asyncio.sleep(0.05)
+                        dw.close()
+                        await send("426 transfer aborted\r\n" if aborted else "226 done\r\n")
                 elif cmd == "MLST":
                     await send("502 no\r\n")
                 elif cmd == "QUIT":
@@ -477,8 +504,18 @@ def run_client_case(case):
                 st, r = await call("list", client.list())
                 info["list"] = (st, type(r).__name__)
             elif kind == "listing":
-                st, r = await call("list", client.list(raw_command=case["cmd"]))
                 nonempty = [ln for ln in case["lines"] if ln.strip()]
+                unparseable = []
+                for ln in case["lines"]:
+                    try:
+                        (client.parse_mlsx_line if case["cmd"] == "MLSD" else client.parse_list_line)(ln.encode("latin-1"))
+                    except Exception:
+                        unparseable.append(ln)
+                if case.get("serve_mode") == "stall" and not unparseable:
+                    case["serve_mode"] = "slow426"  # (a silent server after a well-formed listing is not this property's business)
+                st, r = await call("list", client.list(raw_command=case["cmd"]))
+                if unparseable and case.get("serve_mode", "normal") != "normal" and not (st == "exc" and isinstance(r, ValueError)):
+                    viol.append({"clause": "unparseable-line-not-reported-as-ValueError", "subject": f"{case['family']}:{case['serve_mode']}", "detail": f"the server sent {case['lines']!r} line by line ({case['serve_mode']}); the client cannot parse {unparseable[:2]!r} but list() ended with {st} {r!r}"[:500]})
                 if st == "ok":
                     ok_types = isinstance(r, list) and all(isinstance(p, pathlib.PurePosixPath) and isinstance(i, dict) for p, i in r)
                     if not ok_types:
